@@ -411,6 +411,7 @@ func streamConc(c *Ctx) {
 	requestIsolationProbes(c)
 	codecMemoryProbe(c)
 	sharedEndErrorProbe(c)
+	constructionErrorProbe(c)
 	sharedContextErrorProbe(c)
 	negotiationPerCallProbe(c)
 	sharedDecodeTargetProbe(c)
@@ -486,6 +487,61 @@ func codecMemoryProbe(c *Ctx) {
 			if got != "intact" {
 				c.Fail("conc-codec-memory-reused", desc, got, "memory returned by Codec.Marshal is not the library's to recycle: the caller's message must stay intact")
 			}
+		}
+	}
+}
+
+// constructionErrorProbe (C13, F39): a client that could not be constructed (an unknown send
+// compression, say) fails every call - each with an error of its own: metadata one caller sets
+// on the error it was handed must not show on the next caller's (and Error.Meta allocates
+// lazily inside the value, so a shared one is also a data race between callers).
+func constructionErrorProbe(c *Ctx) {
+	for _, kind := range []string{"unary", "server", "client", "bidi"} {
+		desc := "a client built with WithSendCompression of an unregistered name, two " + kind + " calls"
+		c.Begin(desc)
+		c.Count("construction-error-probe")
+		got := safely(func() string {
+			cl := connect.NewClient[[]byte, []byte](&staticClient{status: 200}, "http://h/s/m", connect.WithCodec(rawCodec{"raw"}), connect.WithSendCompression("never-registered"))
+			call := func() *connect.Error {
+				var err error
+				switch kind {
+				case "unary":
+					_, err = cl.CallUnary(context.Background(), connect.NewRequest(&[]byte{1}))
+				case "server":
+					_, err = cl.CallServerStream(context.Background(), connect.NewRequest(&[]byte{1}))
+				case "client":
+					err = cl.CallClientStream(context.Background()).Send(&[]byte{1})
+				default:
+					err = cl.CallBidiStream(context.Background()).Send(&[]byte{1})
+				}
+				var ce *connect.Error
+				if !errors.As(err, &ce) {
+					return nil
+				}
+				return ce
+			}
+			e1 := call()
+			if e1 == nil {
+				return "the first call did not fail with a coded error"
+			}
+			e1.Meta().Set("X-Seen-By", "call-1")
+			e2 := call()
+			if e2 == nil {
+				return "the second call did not fail with a coded error"
+			}
+			if e1 == e2 {
+				return "both calls failed with the very same *connect.Error value"
+			}
+			if v := e2.Meta().Get("X-Seen-By"); v != "" {
+				return "metadata set on the first call's error shows on the second call's: " + v
+			}
+			if e1.Code() != e2.Code() || e1.Message() != e2.Message() {
+				return "the two calls report different errors: " + e1.Error() + " / " + e2.Error()
+			}
+			return "distinct"
+		})
+		if got != "distinct" {
+			c.Fail("conc-shared-construction-error", desc, got, "an error handed to one call must not be shared with another: Meta() writes into it")
 		}
 	}
 }
